@@ -295,6 +295,16 @@ def validate_cascade(framework, cascade, cascade_name=None, fallback_used: bool 
         else:
             raise Exception('Cascade "%s" includes compartments from more than one population type' % (cascade_name))
 
+    # A stage's value is the sum over its constituents, so a compartment that a stage lists more than once (e.g. a characteristic
+    # together with one of its own compartments) would be counted more than once - and the stage could exceed the one before it
+    for stage, includes in cascade_dict.items():
+        seen = set()
+        for constituent in sc.promotetolist(includes):
+            comps_ = set(framework.get_charac_includes(constituent))
+            if seen & comps_:
+                raise InvalidCascade('Stage "%s"%s includes the compartments %s more than once' % (stage, ' of the cascade "%s"' % cascade_name if sc.isstring(cascade_name) else "", sorted(seen & comps_)))
+            seen |= comps_
+
     for i in range(0, len(expanded) - 1):
         if not (set(expanded[i + 1]) <= set(expanded[i])):
             message = ""
